@@ -544,6 +544,16 @@ def plan_pool(run, tmp):
     run.add_mc("HPool_negblock", r, "negative: Return without default violates NeverBlocks")
     r = V.model_check(tmp, "HPool", "HPool_negbound", expect="Bounded")
     run.add_mc("HPool_negbound", r, "negative: Return that always keeps violates Bounded")
+    # (A') unbounded number of operations: an inductive invariant discharged by Apalache (symbolic)
+    d = V.spec_dir(tmp, "apalache_pool")
+    t0 = V.time.time()
+    for args, what in ((["--init=Init", "--length=0"], "Init => IndInv"), (["--init=IndInv", "--length=1"], "IndInv /\\ Next => IndInv'")):
+        p = V.subprocess.run(["timeout", "900", "apalache-mc", "check", "--cinit=CInit", "--inv=IndInv", "--out-dir=" + V.os.path.join(d, "apa-out")] + args + ["HPoolInd.tla"],
+                             cwd=d, capture_output=True, text=True)
+        if "EXITCODE: OK" not in p.stdout:
+            raise V.Infra("Apalache did not discharge %s for HPoolInd:\n%s" % (what, p.stdout[-2000:]))
+    run.mc.append(dict(config="HPoolInd (Apalache)", distinct_states=0, states_generated=0, wall_s=round(V.time.time() - t0, 1),
+                       checks="inductive invariant TypeOK /\\ Exclusive /\\ Bounded /\\ Known: holds initially and is preserved by every Get / Return, for Size 0..3, three goroutines, any number of operations (at most 12 distinct objects)"))
     # (B) spec -> code: every behaviour of HPool for small constants replayed on the real pools
     vec = V.os.path.join(tmp, "pool_vectors.ndjson")
     first = True
